@@ -6,6 +6,8 @@ import gen_inputs
 import irp
 import irpplan
 import perproto
+import props.c01 as c01
+import tracer
 import protoinfo
 import protomodel
 import vlib
@@ -125,6 +127,84 @@ Proof. vm_compute. discriminate. Qed.
 Print Assumptions C02_%s.
 ''' % (name, name, vlib.z(int(freq)), name, name))
     return (lfile, '\n'.join(obl)), None
+
+
+
+RHEADER = """From Coq Require Import ZArith List Bool Lia String.
+Require Import PyIR.Base.Result PyIR.IW.IW PyIR.IW.IWProps PyIR.Engine.Render PyIR.Proto.Descriptor PyIR.Proto.Model
+               PyIR.Proto.C01 PyIR.Proto.Irp PyIR.Proto.IrpLib.
+Require Import Gen.Tables Gen.L_%s.
+Import ListNotations.
+Open Scope Z_scope.
+"""
+
+
+def gen_renderer(e):
+    """C02R_<p>: the first frame that the renderer model computes for encode(repeat_count=0) is the first frame of the IRP
+    signal - for every in-range assignment.  Applies when that frame is one _build_packet call on a two-entry table."""
+    p, m = e['p'], e['model']
+    name = p['name']
+    pk, why = c01.first_packet(m)
+    if pk is None:
+        return None, why
+    if len(pk['bursts']) != 2 or not all(isinstance(b, (list, tuple)) for b in pk['bursts']):
+        return None, 'symbol table does not have two entries'
+    if (pk['lead_in'], pk['lead_out'], pk['bursts']) != (p['lead_in'], p['lead_out'], p['bursts']) or pk['encoding'] != p['encoding']:
+        return None, 'packet built on other tables than the class tables'
+    widths = []
+    for nm, ex in pk['fields']:
+        w = tracer.static_nbits(ex)
+        if w is None:
+            return None, 'field %s of value-dependent width' % nm
+        widths.append(w)
+    eps = p['encode_parameters']
+    if not eps or len(eps) > 6:
+        return None, 'no or too many encode parameters'
+    args = ['a_' + a for a, lo, hi in eps]
+    hyps = ' -> '.join('%s <= a_%s <= %s' % (vlib.z(lo), a, vlib.z(hi)) for a, lo, hi in eps)
+    xs = '[%s]' % '; '.join(protomodel.ciw(ex) for nm, ex in pk['fields'])
+    s0, s1 = (vlib.zlist(list(b)) for b in pk['bursts'])
+    al = ' '.join(args)
+    pat = 'i'
+    for _ in eps:
+        pat = '[|%s]' % pat
+    out = [RHEADER % name]
+    out.append('Definition xs (%s : Z) : list iw := %s.' % (al, xs))
+    out.append('Definition envf (%s : Z) : nat -> Z := fun i => nth i [%s] 0.' % (al, '; '.join(args)))
+    out.append("""Lemma frame0 : forall %s, map (inst_slot (envf %s)) (nth 0 lib_0 []) =
+  packet_atoms (d_lead_in D_%s) (d_lead_out D_%s) (d_bursts D_%s) (d_msb D_%s) (xs %s).
+Proof. intros. reflexivity. Qed.
+Lemma fields_canonical : forall %s, %s -> Forall canonical (xs %s).
+Proof. intros. unfold xs. canon_tac. Qed.
+Lemma env_in_range : forall %s, %s -> env_ok ranges (envf %s).
+Proof. intros %s. intros. intros i Hi. unfold ranges, range_of, envf in *. cbn [List.length] in Hi.
+  destruct i as %s; cbn [nth fst snd]; try lia. Qed.
+Lemma agree0 : frame_agree ranges (nth 0 lib_0 []) (nth 0 irp_0 []) = true. Proof. vm_compute. reflexivity. Qed.
+Lemma deps0 : forallb (deps_ok (List.length ranges)) (nth 0 lib_0 []) = true. Proof. vm_compute. reflexivity. Qed.
+Lemma pok : packet_ok (d_lead_in D_%s) (d_lead_out D_%s) %s %s %d = true. Proof. vm_compute. reflexivity. Qed.
+
+(* every in-range assignment: the frame the model of _build_packet / IntegerWrapper.timings renders from the traced fields of
+   encode(repeat_count=0) is, duration for duration, the first frame of the signal of the protocol's IRP string *)
+Theorem C02R_%s : forall %s, %s ->
+  exists l, render_part (PPacket (d_lead_in D_%s) (d_lead_out D_%s) (d_bursts D_%s) (d_msb D_%s) [] (xs %s)) = Ok l /\\
+            frame_signal (map (inst_slot (envf %s)) (nth 0 irp_0 [])) = Some l.
+Proof.
+  intros %s. intros.
+  destruct (render_packet_is_irp_b (d_lead_in D_%s) (d_lead_out D_%s) %s %s (d_msb D_%s) (xs %s) %d
+              ltac:(apply fields_canonical; assumption) ltac:(vm_compute; discriminate) pok) as [l [Hrender Hsignal]].
+  exists l. split; [exact Hrender|].
+  rewrite <- (frame_agree_signal ranges (envf %s) _ _ ltac:(apply env_in_range; assumption) agree0 deps0).
+  rewrite frame0. exact Hsignal.
+Qed.
+Print Assumptions C02R_%s.
+""" % (al, al, name, name, name, name, al,
+       al, hyps, al,
+       al, hyps, al, al, pat,
+       name, name, s0, s1, sum(widths),
+       name, al, hyps, name, name, name, name, al, al,
+       al, name, name, s0, s1, name, al, sum(widths),
+       al, name))
+    return '\n'.join(out), None
 
 
 def tracer_refused():
@@ -259,6 +339,17 @@ def run(ctx):
             return None, 'generated plans do not compile: ' + out[-300:]
         return txt, None
     results = perproto.run_obligations(ctx, 'C02', info, gen2, timeout=120)
+
+    def gen3(e):
+        name = e['p']['name']
+        if results[name]['status'] != 'proved':
+            return None, 'base obligation C02_%s not proved' % name
+        return gen_renderer(e)
+    rresults = perproto.run_obligations(ctx, 'C02R', info, gen3, timeout=120)
+    perproto.settle(ctx, 'C02R', rresults, hits)
+    ctx.extra['renderer_theorem_protocols'] = ctx.extra.pop('proved_protocols')
+    ctx.extra['renderer_theorem_inconclusive'] = ctx.extra.pop('inconclusive_protocols')
+    ctx.extra['renderer_theorem_not_applicable'] = ctx.extra.pop('unmodelled_protocols')
     ctx.extra['t_obl'] = round(time.time() - t0, 1)
     vlib.check_props_file(ctx, 'C02')
     perproto.settle(ctx, 'C02', results, hits)
@@ -288,7 +379,19 @@ def run(ctx):
         name, asg, n = meta[i]
         ctx.report(name, 'plan-model-disagrees', dict(asg, n=n), dict(protocol=name, params=asg, repeat_count=n,
                                                                         impl=cases[i][1][:80], model=o[:80]))
-    ctx.extra['correspondence'] = dict(cases=len(cases), disagreements=len(bad))
+    # ---- and the regenerated encode models (expression language of the tracer, IW / Render models) against the real encoders for
+    #      EVERY traced protocol, also those whose plan does not agree with the IRP: a change of a shared helper must not hide
+    #      behind a protocol's known discrepancy
+    import protocorr
+    traced = [e['p'] for e in info.values() if e['compiled'] and e['model']['status'].get('encode') == 'ok']
+    ncases, ebad, unknown, failed = protocorr.corr_encode(ctx, traced, 3 if ctx.tier == 'quick' else 30, ns=(0, 1, 2))
+    for p, a, n, impl, model in ebad:
+        ctx.report(p['name'], 'encode-model-disagrees', dict(a, n=n),
+                   dict(protocol=p['name'], params=a, repeat_count=n, impl=impl[:80], model=model[:80]))
+    for name, out in failed:
+        ctx.report(name, 'model-eval-failed', {}, dict(theorem='Gen.P_%s evaluation' % name, output=out), found_input=False)
+    ctx.extra['correspondence'] = dict(cases=len(cases), disagreements=len(bad), encode_model_cases=ncases,
+                                       encode_model_disagreements=len(ebad), encode_model_protocols=len(traced))
     ctx.cov['checker_cmd'] = vlib.COQC_CMD + ' for Gen/Tables.v, Gen/L_<p>.v, C02_<p>.v and Props/C02.v'
     ctx.cov['rule'] = ('every protocol with a well-formed irp string x in-range assignments x repeat_count 0,1,2: the concatenated emitted '
                        'durations against an independent exact-arithmetic IRP renderer (tolerance: 1 us per primitive duration merged, for '
